@@ -9,6 +9,8 @@
 //
 // usage: c12_wrapsq TASKFILE    (lines: "j k Alo Ahi", inclusive, decimal)
 #pragma once
+#include <algorithm>
+
 #include "c12_common.hh"
 
 namespace c12 {
@@ -100,7 +102,7 @@ inline int wrapsq_main(int argc, char **argv) {
     if (!f) return 2;
     Tally t;
     unsigned long long a_values = 0, solutions = 0, candidates = 0, collisions = 0, prime_cands = 0,
-                       degenerate = 0, collisions_prime = 0;
+                       degenerate = 0, collisions_prime = 0, au_wrong = 0;
     int j, k;
     char lo_s[64], hi_s[64];
     std::vector<u64> xs;
@@ -125,13 +127,17 @@ inline int wrapsq_main(int argc, char **argv) {
                                     "\"n\":\"%s\"}\n", u64s(n).c_str());
                         continue;
                     }
-                    const bool au_sq = au::detail::is_perfect_square(n), sq = is_square(n);
-                    const bool coll = au_sq != sq;
+                    const int au_sq = au_is_perfect_square(n);  // -1: function not present
+                    const bool sq = is_square(n);
+                    const SqWrap w = newton_wrap_collision(n);
+                    // "collision" = the independent replay of the unguarded iteration collides, or
+                    // the library's function (if present) disagrees with the exact answer
+                    const bool coll = w.spurious || (au_sq >= 0 && (au_sq != 0) != sq);
                     if (coll) {
                         ++collisions;
+                        au_wrong += (au_sq >= 0 && (au_sq != 0) != sq);
                         const bool pr = is_prime_mr12(n);
                         collisions_prime += pr;
-                        const SqWrap w = newton_wrap_collision(n);
                         std::printf("C {\"n\":\"%s\",\"j\":%d,\"k\":%d,\"A\":\"%s\",\"c\":\"%s\","
                                     "\"au_is_perfect_square\":%d,\"exact_square\":%d,\"prime\":%d,"
                                     "\"actual_iterate_index\":%d,\"actual_iterate\":\"%s\"}\n",
@@ -149,7 +155,7 @@ inline int wrapsq_main(int argc, char **argv) {
     print_tally("wrap-collision", t,
                 ",\"a_values\":" + std::to_string(a_values) + ",\"solutions\":" +
                     std::to_string(solutions) + ",\"candidates\":" + std::to_string(candidates) +
-                    ",\"collisions\":" + std::to_string(collisions) + ",\"collisions_prime\":" +
+                    ",\"collisions\":" + std::to_string(collisions) + ",\"au_is_perfect_square_wrong\":" + std::to_string(au_wrong) + ",\"collisions_prime\":" +
                     std::to_string(collisions_prime) + ",\"prime_candidates\":" +
                     std::to_string(prime_cands) + ",\"degenerate\":" + std::to_string(degenerate));
     return 0;
